@@ -44,7 +44,7 @@ import shutil
 from . import common, tlc, tlaval
 from . import indep_readers
 from . import c02_real as R
-from .c02_real import project, in_scope, event_of          # noqa: F401 (re-exported: replay files / other tools)
+from .c02_real import project, in_scope, event_of, write_text          # noqa: F401 (re-exported: harness/c03.py uses write_text)
 
 PID = 'C02'
 T = tlaval.to_tla
@@ -209,6 +209,22 @@ def build_molecule(m):
     return mol
 
 
+def by_type(m):
+    """interactions regrouped the way a Molecule holds them: per type, types in order of first use (the abstract molecule
+    lists them in insertion order; only the order within a type and the first of each type mean anything)"""
+    types = []
+    for x in m['inter']:
+        if x['type'] not in types:
+            types.append(x['type'])
+    return dict(m, inter=[x for t in types for x in m['inter'] if x['type'] == t])
+
+
+def write_and_read(mol, moltype='verif'):
+    """(text written by the REAL writer, parsed ITP of the independent reader) - kept for other drivers"""
+    text = write_text(mol, moltype)
+    return text, indep_readers.read_itp(text)
+
+
 def moltype_of(m):
     return m.get('moltype') or 'verif'
 
@@ -287,7 +303,7 @@ def _replay_range(job):
         if e['err']:                 # the real writer must not fail on a well-formed molecule
             out['bad'].append({'family': family, 'mol': m, 'why': 'writer-raised', 'detail': e['err']})
             continue
-        if e['mol'] != m:
+        if R.strip_raw(e['mol']) != by_type(m):
             out['bad'].append({'family': family, 'mol': m, 'why': 'harness-error-projection-of-the-built-molecule-differs',
                                'detail': json.dumps(e['mol'])[:300]})
             continue
@@ -465,7 +481,13 @@ def _keys(rng, n, kind):
     if kind == 'tuple':
         pool = [(c, r, a) for c in 'AB' for r in (1, 2, 17) for a in ('BB', 'SC1')]
         return rng.sample(pool, n)
-    pool = [3, 17, 0, 25] + STR_KEYS[:4] + [('A', 1, 'BB'), ('B', 2), (7,), (3, 'x')]
+    pool = [3, 17, 0, 25] + STR_KEYS[:4] + [('A', 1, 'BB'), ('B', 2), (7,), (3, 'x'), '3', '17', (3,), '(3,)', "'a'"]
+    if n >= 2 and rng.random() < 0.5:       # keys that collide under str() / repr()
+        pair = list(rng.choice([(3, '3'), (17, '17'), ((3,), '(3,)'), ('a', "'a'")]))
+        rest = rng.sample([k for k in pool if k not in pair], n - 2)
+        keys = pair + rest
+        rng.shuffle(keys)
+        return keys
     return rng.sample(pool, n)
 
 
@@ -524,6 +546,40 @@ def random_history(rng, every_step=False):
     _rand_interactions(rng, mol, list(mol.nodes), rng.randint(0, 4))
     ops.append('add_interaction x n')
     yield mol, list(ops)
+
+
+def history_features(e):
+    """what an editing-history event exercises (input features only)"""
+    m, ops = e['mol'], e['origin'].get('ops', [])
+    feats = set()
+    ids = [nd['aid'] for nd in m['nodes']]
+    have = sorted(i for i in ids if i != NOAID)
+    if have and len(have) < len(ids):
+        feats.add('atom ids on some atoms only')
+    if len(set(have)) < len(have):
+        feats.add('duplicated atom ids')
+    if have and have != list(range(have[0], have[0] + len(have))) and len(set(have)) == len(have):
+        feats.add('atom ids with gaps')
+    if 0 in have:
+        feats.add('atom id 0')
+    for kind in ('str', 'tuple', 'mixed'):
+        if ops and ops[0].endswith(kind + ' keys'):
+            feats.add(kind + ' node keys')
+    guarded = any(x['g'] for x in m['inter'])
+    if any(o.startswith('merge') for o in ops) and guarded:
+        feats.add('merged parts with guarded interactions')
+    if any(o.startswith('remove_node') for o in ops) and m['inter']:
+        feats.add('remove_node, interactions left')
+    if e['origin'].get('step', 0) > 0 and len(ops) > 1 and not ops[-1].startswith('add_interaction'):
+        feats.add('same object written again after an edit')
+    if any(nd['f'][4] == '0' for nd in m['nodes']):
+        feats.add('charge_group 0')
+    return feats
+
+
+HISTORY_MUST = {'atom ids on some atoms only', 'duplicated atom ids', 'atom ids with gaps', 'atom id 0', 'str node keys',
+                'tuple node keys', 'mixed node keys', 'merged parts with guarded interactions',
+                'remove_node, interactions left', 'same object written again after an edit', 'charge_group 0'}
 
 
 def _history_chunk(args):
@@ -658,7 +714,7 @@ def minimise(m, why, rounds=10):
                 e = event_of(build_molecule(c), {'source': 'shrink'}, moltype=moltype_of(c))
             except Exception:      # noqa
                 continue
-            if not e['err'] and e['mol'] == dict(c, moltype=moltype_of(c)):
+            if not e['err'] and R.strip_raw(e['mol']) == by_type(R.strip_raw(dict(c, moltype=moltype_of(c)))):
                 events.append(e)
         if not events:
             break
@@ -800,8 +856,14 @@ def run(tier, seed, ev, vd):
         nhist = 1600 if quick else 24000
         parts = pool.map(_history_chunk, [(nhist // (tlc.NCPU * 2), seed * 7907 + i) for i in range(tlc.NCPU * 2)])
     events = [e for p in parts for e in p]
+    hist_feats = {}
     for e in events:
         e['fam'] = 'history'
+        for f in history_features(e):
+            hist_feats[f] = hist_feats.get(f, 0) + 1
+    thin = sorted(f for f in HISTORY_MUST if hist_feats.get(f, 0) < 20)
+    if thin:
+        raise tlc.MachineryError('history family is thin on %s: %s' % (thin, hist_feats))
     try:
         cli_out = cli_async.get(timeout=3000)
     finally:
@@ -846,17 +908,18 @@ def run(tier, seed, ev, vd):
                                 'out_of_scope_skipped': len(skipped), 'verdict_parts': tally,
                                 'non_integer_key_molecules': sum(1 for e in events if e['mol']['nodes']
                                                                  and isinstance(e['mol']['nodes'][0]['key'], str)),
-                                'real_molecule_features': sorted(real_feats)}
-    # vacuity of the agreement: it must have been DECIDED (not excluded) on most histories and on every real molecule
-    for fam, least in (('history', 0.5), ('real', 1.0), ('real-edited', 1.0)):
-        t = tally.get(fam, {})
-        total = sum(v for k, v in t.items() if k.startswith('agree='))
-        decided = t.get('agree=ok', 0) + sum(v for k, v in t.items() if k.startswith('agree=reader:'))
-        if total == 0 or decided < least * total:
-            raise tlc.MachineryError('writer/reader agreement decided on %d of %d %s events only: %s' % (decided, total, fam, t))
-    if ev.extra['trace_events']['non_integer_key_molecules'] < 50:
-        raise tlc.MachineryError('history family has too few molecules with non-integer node keys')
+                                'real_molecule_features': sorted(real_feats), 'history_features': hist_feats}
     report_trace_violations(failed, vd, ev, 'recorded run')
+    if not failed:
+        # vacuity of the agreement: it must have been DECIDED (not excluded) on most histories and on every real molecule
+        for fam, least in (('history', 0.5), ('real', 1.0), ('real-edited', 1.0)):
+            t = tally.get(fam, {})
+            total = sum(v for k, v in t.items() if k.startswith('agree='))
+            decided = t.get('agree=ok', 0) + sum(v for k, v in t.items() if k.startswith('agree=reader:'))
+            if total == 0 or decided < least * total:
+                raise tlc.MachineryError('writer/reader agreement decided on %d of %d %s events only: %s' % (decided, total, fam, t))
+        if ev.extra['trace_events']['non_integer_key_molecules'] < 50:
+            raise tlc.MachineryError('history family has too few molecules with non-integer node keys')
     big = max(events, key=lambda e: len(e['file']['recs']))
     si = next((i for i, e in enumerate(events) if nontrivial(e['mol']) and len(e['mol']['nodes']) <= 6), 0)
     ev.sample({'kind': 'recorded run judged by TLC', 'origin': events[si]['origin'], 'mol': events[si]['mol'],
@@ -968,6 +1031,9 @@ def selftest(seed):
     e = copy.deepcopy(ok_agree[2])
     e['again']['recs'] = e['again']['recs'][:-1]
     add(e, 'second-write-differs')
+    e = copy.deepcopy(_first(lambda e: any(nd['f'][6] == '' for nd in e['mol']['nodes']), ok_agree[3:], 'an atom without mass'))
+    next(nd for nd in e['again']['mol']['nodes'] if nd['f'][6] == '')['raw'].append(['mass', "''"])     # attribute appeared
+    add(e, 'writing-changed-the-molecule')
     # non-integer keys: an interaction attached to a different atom
     e = copy.deepcopy(_first(lambda e: isinstance(e['mol']['nodes'][0]['key'], str) and len(e['mol']['nodes']) >= 3
                              and any(len(set(x['at'])) == 2 for x in e['mol']['inter']), usable[12:], 'string keys'))
